@@ -1073,3 +1073,10 @@ VARIANTS.append(dict(id="c09-super-init-crossed-arguments", props=["C09", "C16"]
     ("mdstore.py",
      "        super(InMemoryMetaData, self).__init__(attrc, metadata=metadata)\n",
      "        super(InMemoryMetaData, self).__init__(attrc, metadata, node_name,\n                                               check_validity, security)\n", 1)]))
+V("c12-per-class-cache-inherited", "C12", "__init__.py",
+  "    def _convert_element_tree_to_member(self, child_tree):\n        # Find the element's tag in this class's list of child members\n",
+  "    @classmethod\n    def _known_tags(cls):\n        try:\n            return cls._tags\n        except AttributeError:\n            cls._tags = frozenset(cls.c_children)\n            return cls._tags\n\n    def _convert_element_tree_to_member(self, child_tree):\n        # Find the element's tag in this class's list of child members\n",
+  rule="E7")
+OK("c12-per-class-cache-own-namespace", "C12", "__init__.py",
+   "    def _convert_element_tree_to_member(self, child_tree):\n        # Find the element's tag in this class's list of child members\n",
+   "    @classmethod\n    def _known_tags(cls):\n        try:\n            return cls.__dict__[\"_tags\"]\n        except KeyError:\n            cls._tags = frozenset(cls.c_children)\n            return cls._tags\n\n    def _convert_element_tree_to_member(self, child_tree):\n        # Find the element's tag in this class's list of child members\n")
